@@ -1,6 +1,6 @@
 """The properties C01..C11 as predicates on (abstract project, implementation observations).
 Each oracle returns a list of findings {"what": ..., ...}; empty = the property holds on this case."""
-from projects import walk, task_index, res_index, fid, all_edges, working, aligned, leaves_under, day_interval
+from projects import walk, task_index, res_index, fid, all_edges, working, aligned, leaves_under, day_interval, effective_attr
 
 EPS = 1e-4
 TINY = 1e-3        # ledger entries below a millisecond are float artefacts (documented in DESIGN.md 2.1)
@@ -118,7 +118,7 @@ def c03(ap, obs, sc):
         for m in maps:
             slots |= set(m)
         credited = sum(max(u[r].get(s, 0.0) * effs[r] for r in u) for s in slots)
-        want = n["effort"] * 60.0
+        want = (effective_attr(ap, n, "effort", sc.get("id")) if ap.get("scen_parent") else n["effort"]) * 60.0
         tol = 1.0 * max(effs.values()) + 1e-3
         if abs(credited - want) > tol:
             bad.append({"what": "booked time weighted by efficiency differs from the requested effort by more than the one-second rounding",
